@@ -229,6 +229,76 @@ def impl(fn, args, labels):
     raise ValueError(fn)
 
 
+GENERATE_ORACLE = []     # modules whose components come from genes that are not direct neighbours
+
+
+class FakeCDS:  # pylint: disable=too-few-public-methods
+    """ what generate_domains and combine_modules read of a CDS feature """
+    def __init__(self, name, strand, region):
+        self.name, self.strand, self.region = name, strand, region
+        self.location = types.SimpleNamespace(strand=strand)
+
+    def get_name(self):
+        return self.name
+
+
+def impl_generate(genes, labels):
+    """ fn 5: the real generate_domains over genes = [(specs, motifs, strand, region)]; the searches (hmmscan runs) are
+        replaced by the hits of the case, annotate_domains (feature creation) is switched off """
+    from unittest import mock
+    from antismash.detection.nrps_pks_domains import domain_identification as di
+    ids = Ids()
+    regions = {}
+    cdses, domains, motifs = [], {}, {}
+    for k, (specs, has_motifs, strand, region) in enumerate(genes):
+        regions.setdefault(region, types.SimpleNamespace(cds_children=[]))
+        cds = FakeCDS(f"g{k}", strand, regions[region])
+        regions[region].cds_children.append(cds)
+        cdses.append(cds)
+        doms = []
+        for spec in specs:
+            dom = make_domain(labels, spec)
+            ids.register(dom, spec[2])
+            doms.append(dom)
+        if doms:
+            domains[cds.name] = doms
+        if has_motifs:
+            motifs[cds.name] = [object()]
+    record = types.SimpleNamespace(id="rec", get_cds_features_within_regions=lambda: list(cdses),
+                                   get_regions=lambda: [regions[r] for r in sorted(regions)])
+    try:
+        with mock.patch.object(di, "get_fasta_from_features", return_value=""), \
+                mock.patch.object(di, "find_domains", return_value=domains), \
+                mock.patch.object(di, "find_subtypes", side_effect=lambda *a, **k: a[2]), \
+                mock.patch.object(di, "find_ab_motifs", return_value=motifs), \
+                mock.patch.object(di, "get_database_path", return_value="db"), \
+                mock.patch.object(di.CDSResult, "annotate_domains", lambda self, record, cds: None):
+            results = di.generate_domains(record)
+    except Exception as exc:  # pylint: disable=broad-except
+        return [1, err_code(exc)]
+    # genes in the order of the loop: region by region
+    order = [cds for r in sorted(regions) for cds in regions[r].cds_children]
+    # the clause "merging ... of ADJACENT same-strand genes": the components of a module come from one gene or from two
+    # genes that follow each other directly in their region
+    gene_of = {spec[2]: k for k, (specs, *_rest) in enumerate(genes) for spec in specs}
+    place = {cds.name: (id(cds.region), cds.region.cds_children.index(cds)) for cds in cdses}
+    for cds in order:
+        for module in (results.cds_results[cds].modules if cds in results.cds_results else []):
+            owners = sorted({place[f"g{gene_of[ids.comp(comp)]}"] for comp in module._components})  # pylint: disable=protected-access
+            if len(owners) > 2 or (len(owners) == 2 and (owners[0][0] != owners[1][0] or owners[1][1] - owners[0][1] != 1)):
+                GENERATE_ORACLE.append({"genes": [([labels[sp[0]] for sp in specs], m, st, rg) for specs, m, st, rg in genes],
+                                        "module": [labels[comp.domain.hit_id] if False else comp.domain.hit_id
+                                                   for comp in module._components],  # pylint: disable=protected-access
+                                        "gene_positions_of_its_components": owners})
+    out = [0, len(order)]
+    for cds in order:
+        if cds in results.cds_results:
+            out += [1] + enc_modules(results.cds_results[cds].modules, ids.comp)
+        else:
+            out += [0]
+    return out
+
+
 def impl_fn4(mi, specs, labels):
     """ the hits as supplied -> modules; every module rebuilt from its saved form; the same hits handed over in
         protein order (sorted here, stably, by the harness) -> modules.  A failure is [1, error, stage] """
@@ -286,6 +356,13 @@ def parse_specs(flat, pos):
 def decode_domains(flat, labels):
     """ readable form of the domain lists inside a flat case: (label, subtype hits, query_start) """
     out, pos = [], 2
+    if flat[1] % SPEC_OFFSET == 5:
+        for _ in range(flat[2]):
+            specs, pos = parse_specs(flat, pos if out else 3)
+            out.append([(labels[lab], names_of(hits) or None, start) for lab, hits, _cid, start in specs]
+                       + [("motifs, strand, region", tuple(flat[pos:pos + 3]))])
+            pos += 3
+        return out
     for _ in range(2 if flat[1] % SPEC_OFFSET == 3 else 1):
         specs, pos = parse_specs(flat, pos)
         out.append([(labels[lab], names_of(hits) or None, start) for lab, hits, _cid, start in specs])
@@ -368,7 +445,9 @@ def spec_pass(chk, cases, impl_outs, model_outs, describe):
     spec_cases = [[c[0], c[1] + SPEC_OFFSET] + c[2:] + o for c, o in zip(cases, impl_outs)]
     verdicts = common.run_driver(spec_cases)
     chk.extra["spec_evaluated_on_implementation_outputs"] = len(verdicts)
-    bad = [i for i, verdict in enumerate(verdicts) if verdict != [1]]
+    # fn 5 (generate_domains) has no specification function of its own: model = implementation, and the modules it
+    # returns per gene are judged through fn 1 / 3 (the same build_modules_for_cds / combine_modules)
+    bad = [i for i, verdict in enumerate(verdicts) if verdict != [1] and cases[i][1] != 5]
     chk.extra["spec_violations"] = len(bad)
     chk.extra["spec_violations_" + REPAIRED_CLASS] = sum(1 for i in bad if verdicts[i] == [2])
     chk.extra["spec_violations_reload_differs"] = sum(1 for i in bad if verdicts[i] == [3])
@@ -703,7 +782,7 @@ RULE = ("every implementation output is also judged by the decidable specificati
         "genes (build, build+reload, build+reload+build in position order) and adjacent gene pairs (combine_modules, both strand "
         "relations; 30 % of them one assembly-line module cut in two at a random place); non-trivial = at least two modules or a merge attempt with non-empty genes; distinct by flat encoding")
 FN_NAMES = {1: "build_modules_for_cds", 2: "build+from_json(to_json)", 3: "combine_modules",
-            4: "build(as supplied)+reload+build(position order)"}
+            4: "build(as supplied)+reload+build(position order)", 5: "generate_domains (the loop over the genes of the regions)"}
 
 
 def run(chk):
@@ -757,6 +836,51 @@ def run(chk):
         r = chk.rng.random()
         if queue:
             fn, args = queue.pop()
+        elif r < 0.08:
+            # two to five genes of one or two regions: module pieces split over neighbours, genes whose only hit forms
+            # no module (a docking domain), genes with a/b motifs only, genes without anything, either strand
+            genes, next_id = [], 0
+            region = 0
+            for _ in range(chk.rng.choice([2, 3, 3, 4, 5])):
+                kind = chk.rng.random()
+                if kind < 0.3 and len(genes) < 4:
+                    prev, cur = gen.split_pair()
+                    pieces = [prev, cur]
+                elif kind < 0.55:
+                    pieces = [gen.module_like(0)]
+                elif kind < 0.7:
+                    pieces = [[(gen.index[chk.rng.choice(["PKS_Docking_Nterm", "PKS_Docking_Cterm", "NRPS-COM_Nterm"])], 0, 0, 5)]]
+                elif kind < 0.85:
+                    pieces = [[]]
+                else:
+                    pieces = [gen.sequence(0, 4)]
+                for specs in pieces:
+                    specs = [(sp[0], sp[1], next_id + j, sp[3]) for j, sp in enumerate(specs)]
+                    next_id += len(specs)
+                    if chk.rng.random() < 0.12:
+                        region += 1
+                    genes.append((specs, chk.rng.random() < (0.15 if specs else 0.4), 1, region))
+            if chk.rng.random() < 0.35:
+                # directed: the two halves of one module with a gene in between whose only hit forms no module (or that has
+                # a/b motifs only): the halves are NOT neighbours and must stay apart
+                prev, cur = gen.split_pair()
+                middle = ([(gen.index[chk.rng.choice(["PKS_Docking_Nterm", "PKS_Docking_Cterm", "NRPS-COM_Nterm"])], 0, 0, 5)]
+                          if chk.rng.random() < 0.7 else [])
+                genes, next_id = [], 0
+                for specs in (prev, middle, cur):
+                    specs = [(sp[0], sp[1], next_id + j, sp[3]) for j, sp in enumerate(specs)]
+                    next_id += len(specs)
+                    genes.append((specs, not specs, 1, 0))
+                chk.count("generate_domains_split_module_with_a_gene_in_between")
+            strand = chk.rng.choice([1, 1, -1])
+            genes = [(sp, m, strand if chk.rng.random() < 0.9 else -strand, rg) for sp, m, _st, rg in genes]
+            if strand == -1:
+                genes = genes[::-1]          # downstream gene first, as the record lists a reverse-strand cluster
+                first = {}
+                for _sp, _m, _st, rg in genes:
+                    first.setdefault(rg, len(first))
+                genes = [(sp, m, st, first[rg]) for sp, m, st, rg in genes]
+            fn, args = 5, (genes,)
         elif r < 0.12:
             fn, args = 1, (gen.single_gene(),)
         elif r < 0.20:
@@ -787,6 +911,18 @@ def run(chk):
                 cur = cur + [(s[0], s[1], len(prev) + len(cur) + j, max(c[3] for c in cur) + 20 * (j + 1) if cur else 5)
                              for j, s in enumerate(gen.module_like(0))]
             fn, args = 3, (prev, cur, chk.rng.random() < 0.85)
+        if fn == 5:
+            flat = [PROP, 5, len(args[0])]
+            for specs, has_motifs, strand, region in args[0]:
+                flat += enc_specs(specs) + [int(has_motifs), strand, region]
+            out = impl_generate(args[0], labels)
+            cases.append(flat)
+            impl_outs.append(out)
+            chk.count(FN_NAMES[5])
+            merged = out[0] == 0 and any(len(sp) for sp, *_ in args[0])
+            chk.note_case(flat, merged, {"function": 5, "genes": [([labels[s[0]] for s in sp], m, st, rg) for sp, m, st, rg in args[0]],
+                                         "implementation": out[:40]})
+            continue
         if fn == 3:
             flat = [PROP, fn] + enc_specs(args[0]) + enc_specs(args[1]) + [int(args[2])]
         else:
@@ -824,6 +960,11 @@ def run(chk):
         chk.note_case(flat, nontrivial, {"function": fn, "domains": [[(labels[s[0]], names_of(hits_of(s[1])) or None, s[3])
                                                                      for s in a] for a in args if isinstance(a, list)],
                                          "implementation": out})
+    if GENERATE_ORACLE:
+        chk.violation("counterexample", f"generate_domains merged modules of genes that are not direct neighbours in their region "
+                      f"({len(GENERATE_ORACLE)} case(s))",
+                      {"theorem_or_correspondence": "C14 'merging ... of adjacent same-strand genes' / generate_domains",
+                       "input": min(GENERATE_ORACLE, key=lambda d: len(d["genes"]))})
     chk.extra["hit_lists_by_supply_order"] = orders
     chk.extra["hit_lists_with_adjacent_carrier_proteins"] = tandem_seen
     chk.extra["domains_by_subtype_hit_layout"] = sub_kinds
